@@ -28,7 +28,7 @@ MUT_RMW = {"operator++", "operator--", "operator+=", "operator-=", "operator*=",
            "fetch_and", "fetch_xor"}
 MUT_GROW = {"resize", "reserve", "push_back", "emplace_back", "emplace", "insert", "erase", "pop",
             "pop_back", "pop_front", "push", "push_front", "shrink_to_fit", "emplace_front"}
-ALIAS_FREE = {"std::back_inserter", "std::inserter", "std::front_inserter", "std::move", "std::forward", "std::ref", "std::cref", "std::addressof", "std::get",
+ALIAS_FREE = {"std::next", "std::prev", "std::back_inserter", "std::inserter", "std::front_inserter", "std::move", "std::forward", "std::ref", "std::cref", "std::addressof", "std::get",
               "std::as_const", "std::static_pointer_cast", "std::max", "std::min", "std::tie",
               "std::begin", "std::end", "std::make_reverse_iterator",
               "xt::col", "xt::row", "xt::view", "xt::flatten", "xt::strided_view", "xt::adapt",
@@ -53,7 +53,7 @@ PURE_PREFIXES = ("std::numeric_limits", "std::pow", "std::fabs", "std::abs", "st
                  "xt::xt", "std::distance", "std::accumulate", "std::count", "std::find",
                  "std::all_of", "std::any_of", "std::none_of", "std::count_if", "std::find_if", "std::equal", "std::is_", "std::hash",
                  "__builtin", "__assert_fail", "std::size", "std::empty", "std::invoke",
-                 "std::lower_bound", "std::upper_bound", "std::max_element", "std::min_element",
+                 "std::lower_bound", "std::upper_bound", "std::max_element", "std::min_element", "std::advance",
                  "fastscapelib::", "std::chrono", "std::this_thread", "std::fmod", "std::round",
                  "xt::isclose", "xt::allclose", "xt::mean", "xt::prod", "xt::cumsum", "xt::diff",
                  "xt::stack", "xt::concatenate", "xt::unique", "xt::argsort", "xt::sort",
@@ -66,6 +66,11 @@ VIEW_TYPES = ("xt::xview<", "xt::xstrided_view<", "xt::xbroadcast<", "xt::xfunct
               "fastscapelib::detail::grid_node_index_iterator<", "xt::xdynamic_view<",
               "xt::xnoalias_proxy<", "xt::xtensor_view<", "std::_Rb_tree_", "std::__detail::_Node_",
               "std::tuple<", "xt::xstepper", "xt::xreducer<", "xt::xgenerator<", "xt::xscalar<")
+ITERATOR_TYPES = ("__gnu_cxx::__normal_iterator<", "std::reverse_iterator<", "std::_Rb_tree_const_iterator<",
+                  "std::_Rb_tree_iterator<", "std::__detail::_Node_iterator<", "std::__detail::_Node_const_iterator<",
+                  "std::_List_iterator<", "std::_List_const_iterator<", "std::_Deque_iterator<", "xt::xiterator<",
+                  "xt::xstepper<", "xt::linear_begin", "fastscapelib::detail::grid_node_index_iterator<",
+                  "std::move_iterator<", "std::back_insert_iterator<")
 WRAPPER_CLASSES = {"fastscapelib::stl_container_iterator_wrapper", "fastscapelib::grid_nodes_indices",
                    "fastscapelib::detail::grid_node_index_iterator", "std::reverse_iterator",
                    "std::reference_wrapper", "std::tuple"}
@@ -168,6 +173,7 @@ class FnAnalysis:
         self.env = {}        # declid -> set(paths)   (alias variables)
         self.vcls = {}       # declid -> index class
         self.lambdas = {}    # declid -> list of lambda nodes held by the variable
+        self._folding = False
         self.param_idx = {p["d"]: i for i, p in enumerate(fn.params)}
         self.params = fn.params
         self.direct_only = False   # do not fold callee effects; log the calls instead
@@ -466,6 +472,12 @@ class FnAnalysis:
             sub = strip(e["e"])
             if sub.get("k") == "ref" and sub.get("d") in self.vcls:
                 pass
+            if sub.get("k") == "ref" and sub.get("rk") in ("local", "param"):
+                vt_ = self.fn.type(sub.get("vt") if sub.get("vt") is not None else sub.get("t")).replace("const ", "").strip()
+                if vt_.endswith("*") or any(vt_.startswith(p_) for p_ in ITERATOR_TYPES):
+                    # ++p on a local pointer / iterator moves the cursor, it does not write the pointee
+                    self.read(ps, e)
+                    return ps
             self.write(ps, "rmw", e)
             self.read(ps, e)
             return ps
@@ -559,7 +571,12 @@ class FnAnalysis:
                 self.read(cur, e)
                 capmap[d] = {TMP}
         if lfn is None:
-            self.s.opaque.add(("generic-lambda", self.fn.loc(e)))
+            specs = [self.fn.unit.fns[f] for f in e.get("fids", []) if f in self.fn.unit.fns]
+            if not specs:
+                self.s.opaque.add(("generic-lambda", self.fn.loc(e)))
+                return {TMP}
+            for sp in specs:        # a generic lambda: every instantiated specialisation may be called
+                self.apply_summary(self.eff.summary(sp), {(("this",),)}, [], e, capmap=capmap, lam=True)
             return {TMP}
         ls = self.eff.summary(lfn)
         self.apply_summary(ls, {(("this",),)}, [], e, capmap=capmap, lam=True)
@@ -675,9 +692,23 @@ class FnAnalysis:
         args = list(zip(args_n, arg_paths))
 
         # closures passed as arguments / assigned are assumed callable: effects folded at creation
+        # and, for a closure held by a local variable, again where the variable is passed on or
+        # called (that is where its body runs: position-sensitive analyses need the effects there)
+        for use in ([obj_n] if obj_n is not None else []) + list(args_n):
+            u = strip(use)
+            while isinstance(u, dict) and u.get("k") == "call" and u.get("bn") in ("std::move", "std::forward", "std::ref", "std::cref") \
+                    and u.get("a"):
+                u = strip(u["a"][0])
+            if isinstance(u, dict) and u.get("k") == "ref" and u.get("d") in self.lambdas and not self._folding:
+                self._folding = True
+                try:
+                    for lam in self.lambdas[u["d"]]:
+                        self.v_lambda(lam)
+                finally:
+                    self._folding = False
         callee = fn.callee(e)
         if callee is not None:
-            # call of a local lambda variable: v_lambda already folded its effects
+            # call of a local lambda variable: its effects were folded above
             if callee.is_lambda and obj_n is not None:
                 if self.direct_only:
                     self.call_log.append((e, callee, set(), list(args), "lambda"))
@@ -717,6 +748,14 @@ class FnAnalysis:
                 if name in ("find", "lower_bound", "upper_bound"):
                     self.read(obj_paths, e)
                     return {p + (("[]", (("other",),)),) for p in obj_paths}
+                return set(obj_paths)
+            ot_ = fn.type(strip(obj_n).get("t")).replace("const ", "")
+            if (name in MUT_RMW or name == "operator=") and any(ot_.startswith(p_) for p_ in ITERATOR_TYPES):
+                # advancing / re-seating an iterator changes the iterator (a local value), not the
+                # container it points into
+                for ps, a in zip(arg_paths, args_n):
+                    self.read(ps, a)
+                self.read(obj_paths, e)
                 return set(obj_paths)
             if name in MUT_WHOLE or name in MUT_RMW or name in MUT_GROW:
                 for ps, a in zip(arg_paths, args_n):
